@@ -2,6 +2,7 @@
 package c06
 
 import (
+	"time"
 	"errors"
 	"bytes"
 	"fmt"
@@ -148,8 +149,24 @@ func run(c Case) (sig, msg string, nW, nR int) {
 	if len(c.Reads) == 0 {
 		c.Reads = []int{1 << 16}
 	}
+	var psig, pmsg string
+	hung, kind := harness.Watch(90*time.Second, func() { psig, pmsg = harness.Catch(func() { runCodec(c, &sig, &msg, &nW, &nR) }) })
+	if hung {
+		harness.Record("hang:codec-"+kind, c, fmt.Sprintf("compressing/decompressing a %d byte input did not return within 90 s (%s)", len(c.Input), kind))
+		harness.ExitHung()
+	}
+	if psig != "" {
+		return psig, pmsg, nW, nR
+	}
+	return
+}
+
+func runCodec(c Case, sigp, msgp *string, nWp, nRp *int) {
+	var sig, msg string
+	var nW, nR int
 	var oneShot, chunked, back []byte
-	psig, pmsg := harness.Catch(func() {
+	defer func() { *sigp, *msgp, *nWp, *nRp = sig, msg, nW, nR }()
+	func() {
 		var err error
 		if c.Prelude > 0 {
 			w := lzhuf.NewWriter(&failingSink{left: c.PreludeFail}, c.B2)
@@ -183,11 +200,7 @@ func run(c Case) (sig, msg string, nW, nR int) {
 		if !bytes.Equal(back, c.Input) {
 			sig, msg = "roundtrip-mismatch", fmt.Sprintf("decompressed %d bytes != input %d bytes (first difference at %d)", len(back), len(c.Input), firstDiff(back, c.Input))
 		}
-	})
-	if psig != "" {
-		return psig, pmsg, nW, nR
-	}
-	return
+	}()
 }
 
 func firstDiff(a, b []byte) int {
